@@ -21,7 +21,8 @@ ASSUMPTIONS = ["the anchor table of vf/mutate.py (token / mnemonic / left operan
                "and calibrated on the repaired tree", "column = 1 + characters before the token on its line, a tab counting four"]
 
 FILLER = ["\tmov #1, r0", "\tnop", "\t.word 1, 2, 3", "\tclr (r1)+", "; plain comment", "\t; комментарий с табом\tздесь", "\t.ascii /строка\tс табом/\n\t.even",
-          "\tadd r1, r2\t; trailing\tcomment", "", "\t\t\tinc r3", "  \t mov r2, @#177716", "\tbr .+2"]
+          "\tadd r1, r2\t; trailing\tcomment", "", "\t\t\tinc r3", "  \t mov r2, @#177716", "\tbr .+2",
+          "; page\x0cbreak and\x0bvertical tab", "\tnop ; line\u2028separator \x85 nel \x1c fs \u2029", "\x0c", "\tclr r0\x0b"]
 
 
 @st.composite
